@@ -138,9 +138,9 @@ impl Rng {
             12 | 13 => 100,
             14 | 15 => 5_000,
             16 | 17 => 120_000,
-            18 => 1_300_000,
-            // beyond 120 days of ledgers (the harness's budget allows this once per universe)
-            _ => 2_500_000,
+            18 => if self.chance(1, 2) { 1_300_000 } else { 2_500_000 },
+            // univ::EON: long enough for every temporary entry alive now to expire
+            _ => u32::MAX,
         }
     }
 }
